@@ -17,36 +17,63 @@ REPO_V = r"""
 Definition failing := Eval vm_compute in filter (fun f => negb (balanced prog f)) (map fst prog).
 Print failing.
 
-Definition is_neutral (sm : summary) : bool :=
-  match s_delta sm, s_dirty sm with [], [] => true | _, _ => false end.
-Lemma is_neutral_eq sm : is_neutral sm = true -> sm = neutral.
-Proof. destruct sm as [[|] [|]]; cbn; try discriminate; reflexivity. Qed.
+(* a function without a declared summary: no net effect, no entry assumption
+   (it may have a panic bound inherited from what it calls, and may panic) *)
+Definition is_plain (sm : summary) : bool :=
+  match s_delta sm, s_dirty sm, s_pre sm with [], [], [] => true | _, _, _ => false end.
 
 Definition unknown_entry_points := Eval vm_compute in
-  filter (fun f => match assoc f prog with Some (_, sm) => negb (is_neutral sm) | None => true end) entry_points.
+  filter (fun f => match assoc f prog with Some (_, sm) => negb (is_plain sm) | None => true end) entry_points.
 Print unknown_entry_points.
+
+(* lock-class order graph: what is left after peeling lies on or leads into a cycle *)
+Definition order_residue := Eval vm_compute in residue lock_edges.
+Print order_residue.
 
 (* Every function of the repository's lock skeleton passes the check ... *)
 Theorem repo_balanced : forallb (balanced prog) (map fst prog) = true.
 Proof. vm_compute. reflexivity. Qed.
 
-Lemma entry_points_neutral :
-  forallb (fun f => match assoc f prog with Some (_, sm) => is_neutral sm | None => false end) entry_points = true.
+Lemma entry_points_plain :
+  forallb (fun f => match assoc f prog with Some (_, sm) => is_plain sm | None => false end) entry_points = true.
 Proof. vm_compute. reflexivity. Qed.
 
 (* ... hence every returning path of every function without a declared
-   summary leaves every lock exactly as it found it. *)
+   summary leaves every lock exactly as it found it ... *)
 Theorem repo_entry_points_release_everything :
   forall f, In f entry_points -> forall h, fn_returns prog f h -> forall i, cnt h i = 0%Z.
 Proof.
   intros f Hin h Hr i.
-  pose proof (proj1 (forallb_forall _ _) entry_points_neutral f Hin) as Hn.
+  pose proof (proj1 (forallb_forall _ _) entry_points_plain f Hin) as Hn.
   cbv beta in Hn.
   destruct (assoc f prog) as [[body sm]|] eqn:Ha; [|discriminate].
-  apply is_neutral_eq in Hn; subst sm.
-  exact (balanced_sound prog repo_balanced f body Ha h Hr i).
+  unfold is_plain in Hn.
+  destruct (s_delta sm) eqn:Hd; [|discriminate]. destruct (s_dirty sm) eqn:Hp; [|discriminate].
+  exact (balanced_sound prog repo_balanced f body sm Ha Hd Hp h Hr i).
 Qed.
 Print Assumptions repo_entry_points_release_everything.
+
+(* ... no function ever releases a mutex it does not hold (relative to its
+   entry assumption), on returning and on panicking paths, at any depth ... *)
+Theorem repo_never_underflows : forall f, ~ fn_faults prog f.
+Proof. exact (balanced_no_fault prog repo_balanced). Qed.
+Print Assumptions repo_never_underflows.
+
+(* ... and when a function panics by itself, the locks its pending deferred
+   statements cover are released exactly. *)
+Theorem repo_panic_paths_release_covered :
+  forall f sm ds h, fn_panics_own prog f sm ds h ->
+  forall i, covered prog ds i = true -> in_piles (s_dirty sm) i = false -> cnt h i = cnt (s_delta sm) i.
+Proof. exact (balanced_panic_covered prog repo_balanced). Qed.
+Print Assumptions repo_panic_paths_release_covered.
+
+(* Lock classes outside LockPile are acquired in an acyclic order. *)
+Theorem repo_lock_order_acyclic : acyclic lock_edges = true.
+Proof. vm_compute. reflexivity. Qed.
+
+Theorem repo_lock_order_no_cycle : forall v, ~ Relations.Relation_Operators.clos_trans string (edge lock_edges) v v.
+Proof. exact (acyclic_sound lock_edges repo_lock_order_acyclic). Qed.
+Print Assumptions repo_lock_order_no_cycle.
 """
 
 
@@ -70,22 +97,27 @@ def static_locks(tier, seed, build, repo, verif):
     gen = os.path.join(build, "locksgen_" + tag)
     shutil.rmtree(gen, ignore_errors=True)
     os.makedirs(gen)
-    rc, out = _sh([tbin, "-repo", repo, "-out", os.path.join(gen, "Skeleton.v"), "-stats", os.path.join(gen, "stats.json")], env=env)
+    rc, out = _sh([tbin, "-repo", repo, "-out", os.path.join(gen, "Skeleton.v"), "-stats", os.path.join(gen, "stats.json"),
+                   "-order", os.path.join(gen, "order.json")], env=env)
     if rc:
         msgs = [l for l in out.splitlines() if l.startswith("translator:")]
         yield ("lock-skeleton-extracted", False,
-               "the translator does not understand a construct that touches locks (the skeleton the theorem is about "
-               "can no longer be extracted from the sources):\n" + "\n".join(msgs[:20]), {"translator": msgs[:50]})
+               "the translator does not understand a construct that touches locks, or finds a nested acquisition it cannot place in the "
+               "lock-class order (the skeleton/graph the theorems are about can no longer be extracted from the sources):\n" + "\n".join(msgs[:20]),
+               {"translator": msgs[:50]})
         return
     stats = json.load(open(os.path.join(gen, "stats.json")))
+    order = json.load(open(os.path.join(gen, "order.json")))
     yield ("lock-skeleton-extracted", True,
            "%d functions and function literals seen in %d packages, %d with lock operations, %d emitted (touch locks directly or through calls), "
-           "%d with a declared summary, %d modelled in Pile.v" % (
+           "%d with a declared summary, %d with a panic bound, %d modelled in Pile.v; lock-order graph: %d classes, %d edges, %d justified nestings kept out of it" % (
                stats["functions_seen"], len(stats["packages"]), stats["functions_with_lock_operations"],
-               stats["functions_emitted"], stats["functions_with_declared_summary"], stats["functions_modelled_elsewhere"]), None)
+               stats["functions_emitted"], stats["functions_with_declared_summary"], stats["functions_with_panic_bound"],
+               stats["functions_modelled_elsewhere"], stats["lock_classes"], stats["lock_order_edges"], stats["justified_nestings"]), None)
     # one file: the generated skeleton followed by the obligations
     src = open(os.path.join(gen, "Skeleton.v")).read().replace(
-        "From Coq Require Import String List ZArith.", "From Coq Require Import String List Bool ZArith.")
+        "From Coq Require Import String List ZArith.", "From Coq Require Import String List Bool ZArith.").replace(
+        "From VF Require Import Locks.Checker.", "From VF Require Import Locks.Checker Locks.Order.")
     open(os.path.join(gen, "RepoBalanced.v"), "w").write(src + REPO_V)
     rc, out = _sh(["timeout", "900", "coqc", "-Q", os.path.join(verif, "coq", "theories"), "VF", "RepoBalanced.v"], cwd=gen, timeout=960)
     flat = " ".join(out.split())
@@ -93,6 +125,8 @@ def static_locks(tier, seed, build, repo, verif):
     failing = re.findall(r'"([^"]+)"', m.group(1)) if m else None
     m2 = re.search(r"unknown_entry_points = (\[.*?\]) : list string", flat)
     unknown = re.findall(r'"([^"]+)"', m2.group(1)) if m2 else None
+    m3 = re.search(r"order_residue = (\[.*?\]) : (?:graph|list \(string \* string\))", flat)
+    residue = re.findall(r'\("([^"]+)", "([^"]+)"\)', m3.group(1)) if m3 else None
     if failing is None or (unknown is None and not failing):
         yield ("repo_balanced", False, "could not evaluate the checker on the generated skeleton:\n" + out[-1500:], None)
         return
@@ -101,17 +135,44 @@ def static_locks(tier, seed, build, repo, verif):
         focus = sorted(set(f.split(".")[-1].split("$")[0] for f in failing))
         os.environ["VERIF_LOCKS_FOCUS"] = ",".join(focus)
         note = ("Theorem repo_balanced does not hold for the current sources: on some path these functions do not end with the "
-                "locks they started with (plus their declared summary): " + ", ".join(failing))
+                "locks they started with (plus their declared summary), release a mutex they do not hold, call a function whose entry "
+                "assumption they do not meet, or leave a lock their pending defers cover behind when they panic: " + ", ".join(failing))
         if unknown:
             note += "; entry points missing from the skeleton: " + ", ".join(unknown)
         yield ("repo_balanced", False, note, {"failing_functions": failing, "skeleton": os.path.join(gen, "Skeleton.v")})
         return
-    if rc or "Closed under the global context" not in out:
+    if residue is None:
+        yield ("repo_lock_order_acyclic", False, "could not evaluate the order checker on the generated graph:\n" + out[-1500:], None)
+        return
+    if residue:
+        # a cycle: report the edges that survive peeling with their acquisition sites
+        lines, sites = [], {}
+        for a, b in residue:
+            ss = order["sites"].get(a + " -> " + b, [])
+            sites[a + " -> " + b] = ss[:2]
+            where = "; ".join("%s holds %s (acquired at %s) and at %s acquires %s (%s, in %s)" % (
+                x["in_function"], x["held_lock"], x["held_acquired_at"], x["at"], x["acquired_lock"], x["acquired_at"], x["acquired_in"]) for x in ss[:2])
+            lines.append("%s -> %s [%s]" % (a, b, where))
+        yield ("repo_lock_order_acyclic", False,
+               "Theorem repo_lock_order_acyclic does not hold for the current sources: the lock-class order graph has a cycle "
+               "(two call paths acquire mutexes of these classes in opposite orders). Edges on or leading into the cycle:\n  " + "\n  ".join(lines),
+               {"cycle_edges": [list(e) for e in residue], "sites": sites, "graph": os.path.join(gen, "order.json")})
+        return
+    if rc or out.count("Closed under the global context") < 4:
         yield ("repo_balanced", False, "RepoBalanced.v failed:\n" + out[-1500:], None)
         return
     yield ("repo_balanced", True, "forallb (balanced prog) (map fst prog) = true by vm_compute over %d functions" % stats["functions_emitted"], None)
     yield ("repo_entry_points_release_everything", True,
            "corollary of balanced_sound for the %d entry points; Closed under the global context" % stats["entry_points"], None)
+    yield ("repo_never_underflows", True,
+           "corollary of balanced_no_fault: no function releases a mutex it does not hold (relative to its declared entry assumption), "
+           "on returning and panicking paths; Closed under the global context", None)
+    yield ("repo_panic_paths_release_covered", True,
+           "corollary of balanced_panic_covered: on a function's own panic the locks its pending defers cover are released exactly", None)
+    yield ("repo_lock_order_acyclic", True,
+           "acyclic lock_edges = true by vm_compute (%d classes, %d edges; %d justified nestings listed in translator/summaries.json); "
+           "repo_lock_order_no_cycle through acyclic_sound, Closed under the global context" % (
+               stats["lock_classes"], stats["lock_order_edges"], stats["justified_nestings"]), None)
 
 
 CONFIG = {
@@ -119,7 +180,8 @@ CONFIG = {
     "coq_dirs": ["theories/Locks"],
     "coq_targets": ["theories/Locks/Properties.vo", "theories/Locks/Corr.vo", "theories/Dir/Corr.vo"],
     "properties_files": ["theories/Locks/Properties.v"],
-    "required_theorems": ["balanced_sound", "balanced_sound_all", "pile_holds_exactly", "pile_blocks_bare", "no_deadlock"],
+    "required_theorems": ["balanced_sound", "balanced_sound_all", "balanced_no_fault", "balanced_panic_covered", "acyclic_sound",
+                          "order_no_deadlock", "pile_holds_exactly", "pile_blocks_bare", "no_deadlock", "pile_runner_satisfies_monitor"],
     "static_obligations": [static_locks],
     "harnesses": [
         {"cmd": "locks", "cases_quick": 240, "cases_thorough": 1200, "shards_quick": 8, "shards_thorough": 16,
